@@ -80,6 +80,23 @@ FIXED = [
  ("C17", "fix: round with more places than the number has digits returns the number", "{{ 1.5 | round: 9007199254740992 }} printed NaN, {{ 12.75 | round: 24 }} printed 12.749999999999998"),
  ("C18", "fix: a []byte nested in a map or array that is printed whole prints as its text", "{{ m }} with m = {k: []byte(\"hi\")} printed map[k:[104 105]]"),
  ("C01", "fix: a range of more than ten million elements is not materialised", "{{ (1..2147483647) | first }} still allocated 32 GiB (the earlier limit was 2^31-1 elements) and the process died of memory exhaustion"),
+ ("C01", "fix: a map entry under a NaN key is skipped", "a binding map[float64]any{NaN: 1} made {{ m }}, {% for p in m %}, {{ m | join }} and every array filter panic (reflect: call of reflect.Value.Interface on zero Value)"),
+ ("C11", "fix: break inside tablerow closes the open row", "{% tablerow i in (1..3) cols:2 %}{% if i == 1 %}{% break %}{% endif %}{% endtablerow %} rendered <tr class=\"row1\"><td class=\"col1\"></td> with no </tr>"),
+ ("C17", "fix: a floating-point number with a whole value prints as that number", "{{ 999999 | plus: 1 }} printed 1e+06, {{ 1234567 | minus: 0 }} printed 1.234567e+06: a whole-number result with a fractional part in its mantissa (also C08 {{ 1234567.0 }})"),
+ ("C19", "fix: tag arguments never keep the blank before the closing delimiter", "{% args 50% %} had TagArgs \"50% \" on a default engine and \"50%\" under Delims(\"\",\"\",\"<%\",\")>\"): the same template rendered differently through an application tag depending on the delimiters"),
+ ("C05", "fix: the body of a raw or comment block ends at the first end tag", "{% raw %}{%a {% endraw %} and {% raw %}{{a{% endraw %}}} were reported as unterminated raw blocks (the scanner took the end tag into the unfinished opener's token); same for comment"),
+ ("C13", "fix: whitespace control does not reach across a comment block", "{{ x -}}{% comment %}c{% endcomment %}  b lost the blanks before b, which no hyphen is adjacent to (the comment left no node); also a  {% comment %}c{% endcomment %}{{- x }}"),
+ ("C07", "fix: a malformed expression argument of a filter with a Closure parameter", "an application filter with an expressions.Closure parameter (where_exp shape) given 'it >' or a non-string made Render panic (*expressions.rethrownError) instead of returning a SourceError (also C01)"),
+ ("C02", "fix: error messages spell a container of pointers by its values", "{{ ps | plus: 1 }} with ps = []*int failed with can't convert []*int([0xc00011cf10]) ...: the error text differed from one set of equal bindings to the next (also {% include ps %})"),
+ ("C02", "fix: divided_by names an invalid divisor by its values", "{{ 1 | divided_by: ps }} with ps = []*string failed with invalid divisor: '[0xc000462d80 0xc000462d90]'"),
+ ("C18", "fix: json and inspect write nested Drops and pointers as the values they stand for", "{{ a | json }} with a = [Drop(1), Drop(\"x\")] printed [{},{}] instead of [1,\"x\"]"),
+ ("C18", "fix: sort by key follows a pointer stored under the key", "{{ objs | sort: 'name' }} left a record whose name is a *string where it stood (c,b instead of b,c)"),
+ ("C01", "fix: a chain of more than 100000 filters is an error", "{{ 1 |abs|abs|... }} with three million filters (12 MB) ended the process with 'fatal error: stack overflow'"),
+ ("C01", "fix: blocks nested more than 100000 deep are a syntax error", "800000 nested {%if 1%} blocks (14 MB) ended the process with 'fatal error: stack overflow' in render (one million: in parse)"),
+ ("C14", "fix: a registered template source is used when the include path names a directory", "with a directory standing at <dir>/p.html and a source registered for that path, {% include 'p.html' %} failed with 'is a directory'"),
+ ("C15", "fix: sort orders an array that contains nil or values of different kinds", "{{ a | sort }} with a = [3, nil, 1, 2] returned [3, nil, 1, 2]; [3, \"b\", 1, \"a\"] came back unchanged: 3 stands before 1"),
+ ("C16", "fix: the size filter takes a number or boolean receiver as the text it prints as", "{{ 12 | size }} was 0 although numbers and booleans given as receivers are first converted to the text they print as"),
+ ("C17", "fix: a zero result prints as 0, never as -0", "{{ 0 | times: -1 }} and {{ -3 | modulo: 3 }} printed -0"),
 ]
 KNOWN = [
  # (property, key, what)
